@@ -12,6 +12,22 @@ mod ops_trie;
 #[cfg(chokan_verif)]
 mod ops_kkc;
 mod ops_skk;
+// the converters are binary crates: their modules are compiled into the harness from the repository sources
+#[allow(dead_code)]
+#[path = "/repo/skk-noun-converter/src/noun_converter.rs"]
+mod noun_converter;
+#[allow(dead_code)]
+#[path = "/repo/skk-jinmei-converter/src/jinmei_converter.rs"]
+mod jinmei_converter;
+#[allow(dead_code)]
+#[path = "/repo/skk-tankan-converter/src/tankan_grammer.rs"]
+mod tankan_grammer;
+#[allow(dead_code)]
+#[path = "/repo/skk-notes-converter/src/note_grammer.rs"]
+mod note_grammer;
+#[allow(dead_code)]
+#[path = "/repo/skk-notes-converter/src/converter.rs"]
+mod converter;
 mod ops_server;
 
 fn dispatch(v: &Value) -> Value {
